@@ -11,12 +11,16 @@ func init() {
 	case "good":
 		registry2 = map[string]*target2{}
 		pkgOrder2 = nil
+		registerExtField2("t2", "mach.clock", "read")
+		registerExtField2("t2", "mach.emit", "call")
+		registerExtField2("t2", "mach.hook", "call")
+		registerIgnoredCall2("t2", "logf")
 		register2("t2", []string{"sumTo", "find", "countUntil", "nested", "at", "window", "be", "put", "div",
-			"classify", "guarded", "check", "mk", "rangeInt", "lines", "greet", "anyTrue"})
+			"classify", "guarded", "check", "mk", "rangeInt", "lines", "greet", "anyTrue", "ctr.inc", "mach.step"})
 	case "bad":
 		registry2 = map[string]*target2{}
 		pkgOrder2 = nil
 		register2("t2", []string{"badWhile", "badParamWrite", "badShadow", "badMap", "badClosure", "badBound",
-			"badAlias", "badString", "badGoto", "badRangeWrite", "badAliasInLoop"})
+			"badAlias", "badString", "badGoto", "badRangeWrite", "badAliasInLoop", "badFuncField"})
 	}
 }
